@@ -240,3 +240,25 @@ void bad_hist_free__one_branch(int fresh) {
 	}
 	ctx->par_len++;
 }
+
+/* SET-ORDER: the table of the generator is built before the kind flag of the new curve is stored */
+static void st_build_table(void) {
+	ctx_t *ctx = core_get();
+	if (ctx->ep_is_endom) {
+		fp_zero(ctx->beta);
+	}
+}
+
+void ok_set_order__flags_first(void) {
+	ctx_t *ctx = core_get();
+	ctx->ep_is_endom = 0;
+	ctx->ep_is_super = 0;
+	st_build_table();
+}
+
+void bad_set_order__flags_late(void) {
+	ctx_t *ctx = core_get();
+	st_build_table();
+	ctx->ep_is_endom = 0;
+	ctx->ep_is_super = 0;
+}
